@@ -538,6 +538,69 @@ func (xlexEngine) Gen(r *Rand, tier string) [][]string {
 	return cases
 }
 
+// xpDecls: one declaration of every kind the parser and legalizer distinguish.
+var xpDecls = []string{
+	"syntax = \"proto3\";", "syntax = \"proto2\";", "edition = \"2023\";", "package p;", "package a.b;",
+	"import \"a.proto\";", "import public \"a.proto\";", "import weak \"a.proto\";",
+	"option java_package = \"x\";", "option (a.b) = { c: 1 };",
+	"message N { int32 y = 1; }", "message N {}", "enum F { F_ZERO = 0; }", "enum F {}",
+	"int32 f = 1;", "repeated string g = 2 [deprecated = true];", "optional N n = 3;", "map<string, int32> m = 4;",
+	"service T { rpc G(N) returns (N); }", "service T {}", "rpc G(N) returns (stream N);",
+	"rpc G(N) returns (N) { option deprecated = true; }",
+	"extend N { int32 e = 100; }", "reserved 1 to 5;", "reserved \"a\", \"b\";", "reserved a;",
+	"extensions 100 to 199;", "extensions 100 to max [verification = UNVERIFIED];",
+	"oneof o { int32 a = 5; }", "group G = 6 { int32 h = 7; }", "optional group G = 6 {}", "F_ONE = 1;", ";", "",
+}
+
+// xpContexts: bodies a declaration can (wrongly) end up in; %s is the declaration.
+var xpContexts = []string{
+	"%s", "{ %s }", "{ { %s } }", "{ %s", "%s }", "{ %s } %s", "{ } %s", "( %s )", "[ %s ]",
+	"message M { %s }", "message M { { %s } }", "message M { message I { %s } }", "message M { oneof o { %s } }",
+	"message M { extend X { %s } }", "message M { optional group G = 1 { %s } }",
+	"enum E { %s }", "enum E { { %s } }", "service S { %s }", "service S { { %s } }",
+	"service S { rpc F(M) returns (M) { %s } }", "extend M { %s }", "extend M { { %s } }",
+}
+
+var xpHeaders = []string{"", "syntax = \"proto3\";\npackage p;\n", "edition = \"2023\";\n", "package p;\n"}
+
+// xpDirected: every declaration kind in every body kind (incl. bare `{...}` bodies at file scope and
+// inside messages/enums/services, nested bodies, unbalanced bodies), and one-bracket mutants of
+// valid files: each bracket inserted at every declaration boundary, each bracket removed.
+func xpDirected(add func([]byte)) {
+	for _, h := range xpHeaders {
+		for _, c := range xpContexts {
+			for _, d := range xpDecls {
+				add([]byte(h + strings.ReplaceAll(c, "%s", d)))
+			}
+		}
+	}
+	brackets := []byte("{}()[]")
+	for _, s := range xlSeeds {
+		// boundaries: start, end, and after every `;`, `{`, `}` and newline
+		bounds := []int{0}
+		for i := 0; i < len(s); i++ {
+			switch s[i] {
+			case ';', '{', '}', '\n':
+				bounds = append(bounds, i+1)
+			}
+		}
+		for _, b := range bounds {
+			for _, br := range brackets {
+				m := make([]byte, 0, len(s)+1)
+				m = append(m, s[:b]...)
+				m = append(m, br)
+				m = append(m, s[b:]...)
+				add(m)
+			}
+		}
+		for i := 0; i < len(s); i++ {
+			if strings.IndexByte("{}()[]", s[i]) >= 0 {
+				add([]byte(s[:i] + s[i+1:]))
+			}
+		}
+	}
+}
+
 func (xparseEngine) Gen(r *Rand, tier string) [][]string {
 	var cases [][]string
 	// files that parse cleanly or with warnings only, with small decorations
@@ -564,6 +627,7 @@ func (xparseEngine) Gen(r *Rand, tier string) [][]string {
 			add([]byte(c + t))
 		}
 	}
+	xpDirected(add)
 	// the inputs of the lexer engine, thinned
 	ins := xlInputs(r, tier, 2500, 200000)
 	keep := 3
